@@ -89,3 +89,139 @@ class _GeomInv:
 
 
 LEVEL = {'C11': 'other'}
+
+
+# ------------------------------------------------------------------ parsing (bounded, exhaustive up to a size)
+
+import itertools
+from MIP.geom import parsegeom as PG
+
+
+def _exprs(n_ops, leaves):
+    """All expression trees with exactly n_ops binary operators over the given leaves, plus complement wrappers."""
+    if n_ops == 0:
+        for l in leaves:
+            yield l
+        return
+    for k in range(n_ops):
+        for a in _exprs(k, leaves):
+            for b in _exprs(n_ops - 1 - k, leaves):
+                for op in ('*', ':'):
+                    yield (op, a, b)
+
+
+def _with_complements(e, depth=0):
+    yield e
+    if depth < 1 and e[0] in ('*', ':'):
+        yield ('~', e)
+        a, b = e[1], e[2]
+        for a2 in (a, ('~', a)) if a[0] in ('*', ':') else (a,):
+            for b2 in (b, ('~', b)) if b[0] in ('*', ':') else (b,):
+                if (a2, b2) != (a, b):
+                    yield (e[0], a2, b2)
+
+
+def _render(e, style):
+    """MCNP text of an expression tree in one of several spacing styles."""
+    sp, un, hs, po, pc = style
+    k = e[0]
+    if k == 's':
+        return str(e[1])
+    if k == 'f':
+        return f'{e[1]}.{e[2]}'
+    if k == '#':
+        return f'#{hs}{e[1]}'
+    if k == '~':
+        return f'#{hs}({po}{_render(e[1], style)}{pc})'
+    if k == '*':
+        parts = []
+        for a in e[1:]:
+            t = _render(a, style)
+            parts.append(f'({po}{t}{pc})' if a[0] == ':' else t)
+        return sp.join(parts)
+    return un.join(_render(a, style) for a in e[1:])
+
+
+STYLES = [(' ', ':', '', '', ''), ('  ', ' : ', ' ', ' ', ' '), (' ', ': ', '', '', ' '), (' ', ' :', ' ', ' ', ''),
+          ('   ', ':', '  ', '', '')]
+
+
+def _eval_spec(e, sense, cells):
+    k = e[0]
+    if k == 's':
+        return sense[abs(e[1]), 0] == (e[1] > 0)
+    if k == 'f':
+        return sense[abs(e[1]), e[2]] == (e[1] > 0)
+    if k == '#':
+        return not cells[e[1]]
+    if k == '~':
+        return not _eval_spec(e[1], sense, cells)
+    vals = [_eval_spec(a, sense, cells) for a in e[1:]]
+    return all(vals) if k == '*' else any(vals)
+
+
+def _eval_ast(t, sense, cells):
+    """Denotation of what get_ast returns (Surface / Cell / GeomExpression with '^' nodes)."""
+    if isinstance(t, Surface):
+        v = sense[abs(t.surface), t.sub or 0]
+        return v == (t.surface > 0)
+    if t[0] == '^':
+        return not cells[int(t[1])]
+    vals = [_eval_ast(a, sense, cells) for a in t[1:]]
+    return all(vals) if t[0] == '*' else any(vals)
+
+
+LEAVES = [('s', 1), ('s', -2), ('s', 3), ('f', -4, 2), ('#', 7)]
+
+
+@contract(PG.get_ast, props=['C11'], name='parsegeom.get_ast', status='B')
+class _GetAst:
+    """normalize() + grammar (stand-in parser, same grammar) + the real GeomSemantics on every well-formed expression
+    of the scope, in five spacing styles, against a reference evaluation written from the property statement (blank =
+    intersection binds tighter than ':', parentheses, signed surfaces and facets, #n and #( ... )), for every
+    assignment of senses to the surfaces and cells used."""
+    scope = ('all expressions with <= 2 binary operators (thorough: 3) over 5 leaves (three signed surfaces, a signed '
+             'facet, a cell complement), with #( ) wrapped around the whole expression or around either operand, in 5 '
+             'spacing styles; all 2^6 assignments')
+
+    def bounded(tier):
+        n_max = 2 if tier == 'quick' else 3
+        seen = set()
+        for n in range(0, n_max + 1):
+            for e in _exprs(n, LEAVES):
+                for e2 in _with_complements(e):
+                    for style in STYLES:
+                        txt = _render(e2, style)
+                        if txt in seen:
+                            continue
+                        seen.add(txt)
+                        yield {'geom': txt, 'tree': e2}
+
+    def call(geom, tree):
+        from harness import shim
+        shim.install()
+        return PG.get_ast(geom)
+
+    def ensures(result, geom, tree):
+        ok = True
+        keys = [(1, 0), (2, 0), (3, 0), (4, 2)]
+        for bits in itertools.product((False, True), repeat=5):
+            sense = dict(zip(keys, bits[:4]))
+            cells = {7: bits[4]}
+            if _eval_ast(result, sense, cells) != _eval_spec(tree, sense, cells):
+                ok = False
+                break
+        yield 'same-boolean-function', ok
+
+
+EXPLANATION = {'C11': (
+    'Proved by structural induction on the real code (all trees, all assignments): Surface.inverse, '
+    'GeomExpression.inverse (De Morgan; precondition: binary, no cell-complement node), pot_complement (module c01: '
+    '#n replaced by the inverse of cell n, complement-free binary result, same denotation). Bounded, exhaustive '
+    'within the stated scope: normalize() + grammar + GeomSemantics against a reference evaluator in five spacing '
+    'styles. The TatSu-generated parser itself cannot run in this sandbox and is replaced by harness/shim.py '
+    '(recursive descent for the same grammar, driving the real GeomSemantics).')}
+ASSUMPTIONS = {'C11': [
+    'TatSu parser replaced by a stand-in for exactly the grammar of geom.ebnf (left-associative union / isect)',
+    'cellcard.split (regular expressions) is trusted; exercised only through the deck sweeps',
+]}
